@@ -12,6 +12,23 @@ func features() []string {
 	add := func(s string) { out = append(out, s) }
 	// constants of each kind
 	add("a = 0\nb = 2147483647\nc = 2147483648\nd = -9223372036854775808\ne = 9223372036854775807\nf = 9223372036854775808\ng = 1 << 200\nh = -(1 << 200)\nt(1, [a, b, c, d, e, f, g, h])\n")
+	// integer constants on both sides of every width an encoder or decoder may switch at
+	{
+		var sb strings.Builder
+		vals := []string{"127", "128", "255", "256", "32767", "32768", "65535", "65536", "2147483647", "2147483648", "4294967295", "4294967296",
+			"9223372036854775807", "9223372036854775808", "18446744073709551615", "18446744073709551616", "18446744073709551617",
+			"9999999999999999999", "10000000000000000000", "99999999999999999999", "100000000000000000000", "340282366920938463463374607431768211456",
+			"0xffffffffffffffff", "0x10000000000000000", "0o2000000000000000000000", "0b1" + strings.Repeat("0", 64)}
+		for i, v := range vals {
+			fmt.Fprintf(&sb, "p%d = %s\nn%d = -%s\n", i, v, i, v)
+		}
+		sb.WriteString("t(1, [")
+		for i := range vals {
+			fmt.Fprintf(&sb, "p%d, n%d, ", i, i)
+		}
+		sb.WriteString("])\n")
+		add(sb.String())
+	}
 	add("a = 0.0\nb = -0.0\nc = 1e308\nd = 5e-324\ne = 0.1\nf = 1e100\ng = float('nan')\nh = float('inf')\nt(1, [a, b, c, d, e, f, str(g), h, 1/b if False else 0])\nx = str(b)\n")
 	add("a = ''\nb = 'abc'\nc = '\\x00\\x01\\xff'\nd = '\\u00e9\\U0001F600'\ne = b''\nf = b'\\x00\\xff\\x80abc'\ng = 'a' * 3\nt(1, [a, b, c, d, e, f, g])\nh = c.elems()\n")
 	add("a = '\\xff\\xfe' + 'x'\nb = b'\\xc3\\x28'\nc = str(b)\nt(1, (a, b, c, len(a)))\n")
